@@ -13,7 +13,7 @@ def scenarios(rng, tier):
     return sc
 
 
-RULE = 'every endpoint x signature class (valid, valid for another message, unregistered key, truncated, bit-flipped, not zbase32, empty) x user state (registered, expired, purged, never registered); two / three users on the same locator with different blobs (other penalty, other size, undecryptable) in both submission orders, dispute confirmed afterwards or already in the cache; random histories with bad signatures mixed in'
+RULE = 'every endpoint x signature class (valid, valid for another message, unregistered key, truncated, bit-flipped, not zbase32, empty) x user state (registered, expired, purged, never registered); two / three users on the same locator (users 1 and 2 hold keys that are the negation of one another: same x coordinate, other parity byte) with different blobs (other penalty, other size, undecryptable) in both submission orders, dispute confirmed afterwards or already in the cache; random histories with bad signatures mixed in'
 
 
 def main(tier, replay=None):
